@@ -7,11 +7,11 @@ CHECKS = {
  "C01": dict(cat="translation_validation", sec="4 (C01)", technique="type-directed program generation (proptest choice vectors) + differential testing of compiled IR under lli against an independent reference interpreter; metamorphic layout variation; choice-vector shrinking",
    text="Each generated well-typed, terminating, UB-free program is printed in a plain and in a randomised layout, compiled through the real first-generation pipeline and executed with lli; full stdout and the exit status must equal the reference interpreter's for both layouts, and any rejection of a generated program is a failure.",
    note="Trusted: the reference interpreter (self-checked against native Rust arithmetic in the same check), lli-14, and the soundness of the generator's UB exclusion (re-checked by the interpreter; UB cases are discarded and counted)."),
- "C02": dict(cat="exploration", sec="4 (C02)", technique="mutation-based and grammar-based input generation (corpus mutation, token faults on generated programs, token soup, exhaustive short token sequences in three templates, module sets) against a crash/silent-failure oracle in isolated worker processes; crash signatures by panic site / LLVM complaint / faulting function",
-   text="Every generated source or module set is pushed through the complete first-generation pipeline (lex .. generate_ir .. link) inside a worker process; the only accepted outcomes are success with IR or failure with at least one diagnostic. Panics, LLVM aborts, linker exits, segmentation faults, stack overflows, Err(anyhow) and empty error lists are failures, bucketed by site.",
+ "C02": dict(cat="exploration", sec="4 (C02)", technique="mutation-based and grammar-based input generation (corpus mutation, token faults on generated programs, token soup, exhaustive short token sequences in three templates, module sets, statement trees of the scope/placement checks, declaration dependency graphs) against a crash/silent-failure oracle in isolated worker processes; crash signatures by panic site / LLVM complaint / faulting function",
+   text="Every generated source or module set is pushed through the complete first-generation pipeline (lex .. generate_ir .. link) inside a worker process; the only accepted outcomes are success with IR or failure with at least one diagnostic. Panics, LLVM aborts, linker exits, segmentation faults, stack overflows, Err(anyhow) and empty error lists are failures, bucketed by site; a failure with an empty error list is classed by whether the declarations alone reproduce it. Failing cases are shrunk on the choice vector and then reduced at source level (files, lines, tokens).",
    note="Hangs are only observed up to a watchdog (exit 2). Recorded crash classes are excluded by signature and exercised by fixed probes."),
- "C03": dict(cat="translation_validation", sec="4 (C03)", technique="generated and corpus modules compiled through the real pipeline; emitted IR text validated by independent LLVM tools (opt -passes=verify, llvm-as) plus a definition/linkage scan against the generator's AST",
-   text="For every accepted module (generated executable and compile-only modules incl. extern heads/exports, never-returning functions, modules without main, wasm32; and every repository sample that compiles alone) the per-module IR and the linked IR must be accepted by opt-14 -passes=verify and llvm-as-14 as separate processes, define each source function exactly once, keep main/pub functions externally visible and declare function heads.",
+ "C03": dict(cat="translation_validation", sec="4 (C03)", technique="generated modules, generated programs split over 2-4 modules, and corpus modules compiled through the real pipeline; emitted IR text validated by independent LLVM tools (opt -passes=verify, llvm-as) plus a definition/linkage scan against the generator's AST",
+   text="For every accepted module and module set (generated executable and compile-only modules incl. extern heads/exports, never-returning functions, modules without main, wasm32; and every repository sample that compiles alone) the per-module IR and the linked IR must be accepted by opt-14 -passes=verify and llvm-as-14 as separate processes, define each source function exactly once, keep main/pub functions externally visible and declare function heads.",
    note="Trusted: LLVM 14 tools as the definition of valid IR. Samples that crash the compiler are discarded here (C02's subject) and counted."),
  "C04": dict(cat="exploration", sec="4 (C04)", technique="exhaustive small-scope enumeration (ranking/unranking of statement trees) + random trees, decided against an independent reference model of reverse label scope; proptest shrinking",
    text="Every function body of <= 5 (quick) / <= 6 (thorough) statement nodes over labels, gotos, if-gotos, blocks and if/else blocks (plus random bodies of 40 nodes) is compiled; the exact multiset of E400/E420 and the verdict must equal the prediction of an independent model of 'forward and outward only'. Both directions: bad jumps rejected, good ones accepted.",
@@ -22,34 +22,34 @@ CHECKS = {
  "C06": dict(cat="exploration", sec="4 (C06)", technique="exhaustive small-scope enumeration of statement trees with naked branches and else-if chains + random trees, against a recursive reference predicate; exact multiset of codes and lints",
    text="Every statement tree of <= 6 (quick) / <= 7 (thorough) nodes over assignment, goto, loop, label, block, if/else with arbitrary (also naked) branches is compiled; the multiset of E800/E801/E840 and, for accepted programs, of L1800 must equal the reference predicate's.",
    note="Trusted: reference predicate in harness/src/c06.rs. Trees without concrete syntax (dangling else) are discarded and counted."),
- "C07": dict(cat="exploration", sec="4 (C07)", technique="exhaustive operator x type x type matrix, cast/unary matrix, templated typed edits with known codes, and an invariant walker over the compiler's resolved trees for generated programs",
-   text="All 2704 operator/type/type cells and 195 cast/unary cells are compiled: documented cells must be accepted, every mixed-type or wrong-class cell rejected with E550/E551/E552; 20 kinds of typed edits over random type pairs must be rejected with their E5xx/E333 code; in every accepted program the recorded types on both sides of each operator, comparison, initialisation, argument and return are identical and each operator is applied to its documented class.",
+ "C07": dict(cat="exploration", sec="4 (C07)", technique="exhaustive operator x type x type matrix, cast/unary matrix, pointer/structure operator matrix, templated typed edits with known codes, single type-breaking edits of generated well-typed programs at sites with a fixed required type, and an invariant walker over the compiler's resolved trees for generated programs",
+   text="All 2704 operator/type/type cells and 195 cast/unary cells are compiled: documented cells must be accepted, every mixed-type or wrong-class cell rejected with E550/E551/E552; 20 kinds of typed edits over random type pairs must be rejected with their E5xx/E333 code; a generated program with one sub-expression (call argument in any position, structure argument, typed initialiser, return value, right operand, index, literal member) replaced by a literal of another type must be rejected with a typing code; of all operators on two pointers or two structures only == and != of pointers are accepted; in every accepted program the recorded types on both sides of each operator, comparison, initialisation, argument and return are identical and each operator is applied to its documented class.",
    note="Cells the documentation does not settle are executed but not asserted. The walker trusts the types recorded by the compiler in resolved::Expression."),
- "C08": dict(cat="exploration", sec="4 (C08)", technique="call-heavy generated programs compared with the aliasing-aware reference interpreter; 26 templated illegal mutations/copies over 11 types next to their legal pointer-based twins; fixed control programs",
+ "C08": dict(cat="exploration", sec="4 (C08)", technique="call-heavy generated programs compared with the aliasing-aware reference interpreter; 34 templated illegal mutations/copies over 11 types next to their legal pointer-based twins; fixed control programs",
    text="Programs whose functions take value, view, slice-pointer, pointer, pointer-to-struct and pointer-to-pointer parameters and write through reference chains are run and their complete visible state compared with the interpreter (caller variables change only where `&` was written); every illegal mutation or whole-aggregate copy shape must be rejected with E530-E533/E513.",
    note="Trusted: interpreter's model of views (read-only aliases) and pointers. Recorded typer defects restrict which places are assigned (see DESIGN.md)."),
  "C09": dict(cat="exploration", sec="4 (C09)", technique="combinatorial + random generation of literals (type x value class x spelling x context), executed and compared with a documentation-derived spec function; exhaustive char byte sweep; lint attribution by source line",
    text="Integer literals of every integer type at and around every width boundary, in every spelling and in eight syntactic contexts, all 256 char values in three spellings, random byte strings in mixed escape spellings with adjacent-literal concatenation, and 56 malformed forms are compiled; representable values must be accepted without L1142 and print exactly their value, unrepresentable ones must raise L1142 on their line, malformed ones must be rejected with their documented code.",
    note="Trusted: the spec function in harness/src/c09.rs (value-based range rule). Printed values of out-of-range literals are not asserted."),
- "C10": dict(cat="translation_validation", sec="4 (C10)", technique="generated constant expressions evaluated three ways (LLVM constant folding via `const`, run time via a local variable, reference interpreter); array-length and size-of templates against a layout model",
+ "C10": dict(cat="translation_validation", sec="4 (C10)", technique="generated constant expressions evaluated three ways (LLVM constant folding via `const`, run time via a local variable, reference interpreter); array-length and size-of templates against a layout model; words around their declared size (padding holes, E380 boundary)",
    text="Random UB-free constant expressions are emitted both as `const` and as a local initialiser and printed; arrays whose length is a named constant expression are passed by name, view, slice pointer, pointer-to-array, row, member and constant through two call levels with |x| printed everywhere; random structs/words print |:S|, |:[k]S| at run time and through constants. All printed values must equal each other and the reference model.",
-   note="Trusted: reference interpreter and the C-layout model (integer alignment min(size,8)); under-filled words are not generated."),
- "C11": dict(cat="exploration", sec="4 (C11)", technique="metamorphic testing under permutation of top-level declarations (with and without planted faults), random dependency graphs with planted cycles against a dependency/size model, exhaustive table of documented type/position cells, templated ill-formed declarations",
+   note="Trusted: reference interpreter and the C-layout model (integer alignment min(size,8)); under-filled words: only |:[N]W| == N*|:W| and member layout are asserted, not their acceptance."),
+ "C11": dict(cat="exploration", sec="4 (C11)", technique="metamorphic testing under permutation of top-level declarations (with and without planted faults), random dependency graphs with planted cycles against a dependency/size model, exhaustive table of documented type/position cells, exhaustive type terms of depth <= 3 against the E350 rule, templated ill-formed declarations",
    text="Every generated program must get the same verdict, the same diagnostics and the same run-time behaviour (equal to the reference interpreter) in the generated, reversed and random orders of its top-level declarations; acyclic constant/structure graphs must be accepted with the modelled values and sizes, cyclic ones rejected with E413/E415/E416; every documented type/position cell and every kind of duplicate, over-filled word and non-constant array length must produce its documented code.",
    note="Trusted: reference interpreter, the dependency/size model in harness/src/c11.rs; cells the documentation does not settle are not asserted."),
- "C12": dict(cat="exploration", sec="4 (C12)", technique="metamorphic testing: generated programs split over 2-4 files with computed pub/import closure, compiled in many file orders and compared with the single-file reference interpreter; negative mutants (missing pub / import); compile histories through one Compiler compared with compile-alone IR",
+ "C12": dict(cat="exploration", sec="4 (C12)", technique="metamorphic testing: generated programs split over 2-4 files with computed pub/import closure, compiled in many file orders and compared with the single-file reference interpreter; negative mutants (missing pub / import); exhaustive hand-shaped module sets for transitive imports of every item kind and for same-named files in two directories, in all file orders; compile histories through one Compiler compared with compile-alone IR",
    text="A split program must be accepted in every order of the file list and behave exactly like the single-file program; removing one needed `pub` or `import` (also when only transitively reachable) must be rejected with E401/E402/E405; a module's IR must be byte-identical whether it is compiled alone or after other unrelated modules.",
    note="Trusted: the dependency closure in harness/src/modsplit.rs and the reference interpreter."),
- "C13": dict(cat="exploration", sec="4 (C13)", technique="mutation- and grammar-based generation of rejected inputs (incl. multi-byte text, CRLF, EOF faults, planted characters and planted ill-formed declarations, module sets); per-diagnostic invariants (catalogue, location, covered text, renderability) and differential re-compilation in fresh processes for determinism",
+ "C13": dict(cat="exploration", sec="4 (C13)", technique="mutation- and grammar-based generation of rejected inputs (incl. multi-byte text, CRLF, EOF faults, planted characters, planted ill-formed declarations, planted faults inside expressions, type-breaking edits, module sets); per-diagnostic invariants (catalogue, location, covered text, renderability) and differential re-compilation in fresh processes for determinism",
    text="For every diagnostic of every generated rejected or lint-carrying input: its code is in the published catalogue, its primary location lies in a compiled file and starts on the reported line, name-carrying diagnostics cover exactly that name, a planted character is covered, the report renders in all four colour/charset configurations (no ESC without colour, ASCII with ascii arrows). On a sample, and on every multi-file case, two fresh processes must reproduce verdict, ordered diagnostics, locations, rendered text and all IR text byte for byte.",
    note="Catalogue = docs/errors.md headings (parsed live) + catalogue_extra.json (8 frozen codes). Crashing inputs are discarded and counted (C02's subject)."),
- "C14": dict(cat="exploration", sec="4 (C14)", technique="exhaustive small-scope + grammar-based generation, three-way differential (alpha lexer / delta lexer / independent reference lexer), proptest choice-vector shrinking",
+ "C14": dict(cat="exploration", sec="4 (C14)", technique="exhaustive small-scope + grammar-based generation, three-way differential (alpha lexer / delta lexer / independent reference lexer), choice-vector shrinking; thorough tier adds a coverage-guided libFuzzer campaign (fuzz_lexdiff, ASan) with the same oracle inside the target",
    text="Every string of length <= 3 (quick) / <= 4 (thorough) over a 48-symbol alphabet, plus generated token streams with generator-known expected tokens and planted malformed lexemes, are lexed by both real lexers and by an independent reference lexer; kinds, payloads, suffix types, byte spans, lines and error codes must agree. Held-on-everything-explored, exhaustive within the stated small scope.",
    note="Trusted: the reference lexer (harness/src/reflex.rs) as a reading of docs/errors.md; normalisations listed in the evidence assumptions."),
- "C15": dict(cat="exploration", sec="4 (C15)", technique="byte-level and grammar-based generated inputs (random bytes, mutated corpus, token soup, exhaustive token sequences, node-dense valid programs, giant lists) in crash-isolated workers with debug assertions and overflow checks; reference-lexer token oracle; sanitizer fuzz targets in the thorough tier",
+ "C15": dict(cat="exploration", sec="4 (C15)", technique="byte-level and grammar-based generated inputs (random bytes, mutated corpus, token soup, exhaustive token sequences, node-dense valid programs, giant lists) in crash-isolated workers with debug assertions and overflow checks; reference-lexer token oracle; thorough tier adds a coverage-guided libFuzzer campaign (fuzz_delta, ASan, debug assertions) with the same oracle inside the target",
    text="Generated byte strings of every kind (invalid UTF-8, NUL, extreme token density, 30k-element lists, sizes straddling the 65536-token heuristic) are pushed through lex -> parse -> errors -> build_header -> all XML dumps in isolated worker processes; any panic, abort or stack overflow is a failure keyed by site; the published token vector must equal the reference lexer's; valid-by-construction modules must be accepted (or E103 above the heuristic) and planted invalid lexemes rejected.",
    note="Exploration only: absence of crashes on the inputs run. E102 and the 2^24 token cap are out of reach; hangs are observed up to a watchdog (exit 2)."),
- "C16": dict(cat="exploration", sec="4 (C16)", technique="grammar-based generation of syntactically valid modules; differential comparison of canonical syntax terms built from the first-generation AST and from the second-generation XML dump (strict reader); exhaustive operator-pair table; corpus replay",
+ "C16": dict(cat="exploration", sec="4 (C16)", technique="grammar-based generation of syntactically valid modules; differential comparison of canonical syntax terms built from the first-generation AST and from the second-generation XML dump (strict reader); exhaustive operator-pair table; corpus replay; thorough tier adds a coverage-guided libFuzzer campaign (fuzz_parsediff, ASan) over any text the first-generation parser accepts",
    text="Generated modules covering every documented production, decorated well-typed programs in random layouts, the repository corpus and all 100 operator pairs are parsed by both generations: the second-generation parser must accept what the first accepts, its XML dump must be balanced and free of MALFORMED nodes, and its canonical term must equal the first generation's (declarations, flags, names, types, statement order, operand order and associativity, nesting, literal values, address depths, reference steps).",
    note="Trusted: the canonical-term converters in harness/src/synterm.rs. Normalisations: literal spelling, folded minus on signed literals, `return:` placement, builtin `!`."),
  "C17": dict(cat="exploration", sec="4 (C17)", technique="exhaustive pub/private masks over a pool of declaration shapes + grammar-generated modules; round-trip oracle: header XML vs parse of the expected public-interface text",
@@ -61,7 +61,7 @@ CHECKS = {
  "C19": dict(cat="exploration", sec="4 (C19)", technique="seeded generation of the unit under test (hook H1) checked against two real lexers and a reference lexer; CLI runs of `penne fuzz tokens`",
    text="fill_to_capacity_with_tokens(95, ..) is run for kb in 1..=64 under runner-drawn RNG seeds, and through the real binary; every output must be valid UTF-8 of >= 1000*kb bytes with zero lexical errors for the alpha lexer, the delta lexer and the reference lexer.",
    note="Library runs replace rand::rng() by a seeded StdRng through the cfg(penne_verif) hook; the sampled distributions are those of the code under test."),
- "C20": dict(cat="exploration", sec="4 (C20)", technique="grammar-generated builtin-free modules and corpus files through parse -> rebuild -> parse -> rebuild; tree equality modulo locations and literal spelling; byte-identical second rebuild",
+ "C20": dict(cat="exploration", sec="4 (C20)", technique="grammar-generated builtin-free modules and corpus files through parse -> rebuild -> parse -> rebuild; tree equality modulo locations and literal spelling; byte-identical second rebuild; thorough tier adds a coverage-guided libFuzzer campaign (fuzz_roundtrip, ASan) over any builtin-free text that parses",
    text="t1 = parse(src); r1 = rebuild(t1); t2 = parse(r1) must be error-free with canon(t1) == canon(t2), and rebuild(t2) must equal r1 byte for byte, for generated modules with and without structures and for every builtin-free corpus file.",
    note="Recorded findings: structures and structure-typed names are rebuilt with '#' markers; the structure-free class continues the search behind them."),
 }
